@@ -144,6 +144,7 @@ UpdProbeReply(h, e) ==
 UpdCliSend(h, e) ==
   LET sv == SvcOf(h, e.svc)
       r  == [ svc |-> e.svc, kind |-> e.kind, hold |-> e.hold, hc |-> e.hc, cookie |-> e.cookie,
+              chunked |-> ("chunked" \in DOMAIN e) /\ e.chunked,
               abort |-> e.abort, tls |-> e.tls, sync |-> e.sync, send |-> e.seq, sendT |-> e.t, recv |-> 0, recvT |-> 0, status |-> 0,
               origin |-> "", intact |-> FALSE, msg |-> "", page |-> "",
               tg |-> NoTg, beg |-> 0, begT |-> 0, endSeq |-> 0, endT |-> 0, how |-> "", nbeg |-> 0,
@@ -463,7 +464,8 @@ ChkCliRecv(h, g, e) ==
          {V("C02", e.r, Sig(r), <<"status", e.status, "origin", e.origin, "allowed", al>>)})
    \cup If(r.how = "replied" /\ r.abort = 0 /\ r.kind \notin {"upgrade", "slowupgrade"} /\ ~(e.status = 200 /\ e.origin = r.tg /\ e.intact),
          {V("C03_c", e.r, Sig(r), <<"target replied but client got", e.status, e.origin>>)})
-   \cup If(r.how = "cancelled" /\ r.abort = 0 /\ e.status # 504,
+   \* a response that was already under way when it was cut cannot become a 504 any more: it must be visibly incomplete
+   \cup If(r.how = "cancelled" /\ r.abort = 0 /\ e.status # 504 /\ ~(r.chunked /\ e.status = 200 /\ ~e.intact),
          {V("C03_c", e.r, Sig(r), <<"request cut off without a 504", e.status>>)})
    \cup ChkPause(h, r, e.r, e)
    \cup (LET grp == TargetsOf(h, r.curAtSend)
